@@ -832,6 +832,865 @@ func c11r22(c *Ctx, r *Report) {
 	r.floor("LinkEnd calls after a printing loop", n, 1)
 }
 
+// lowerBoundAt: a proven lower bound of the integer value v at block b: constants, x±const, len(), and the
+// comparisons with constants on every path to b.
+func lowerBoundAt(pc *PathConds, b *ssa.BasicBlock, v ssa.Value, depth int) (int64, bool) {
+	if k, ok := constIntVal(v); ok {
+		return k, true
+	}
+	if depth > 4 {
+		return 0, false
+	}
+	best, have := int64(0), false
+	if call, ok := v.(*ssa.Call); ok {
+		if bi, ok := call.Call.Value.(*ssa.Builtin); ok && bi.Name() == "len" {
+			best, have = 0, true
+		}
+	}
+	if bo, ok := v.(*ssa.BinOp); ok {
+		if k, isK := constIntVal(bo.Y); isK && (bo.Op == token.SUB || bo.Op == token.ADD) {
+			if lb, ok := lowerBoundAt(pc, b, bo.X, depth+1); ok {
+				if bo.Op == token.SUB {
+					lb -= k
+				} else {
+					lb += k
+				}
+				best, have = lb, true
+			}
+		}
+	}
+	// from the path conditions
+	dnf := pc.At(b)
+	if len(dnf) > 0 {
+		all := true
+		var minOver int64
+		for i, dj := range dnf {
+			found := false
+			var bestDj int64
+			for _, lt := range dj {
+				bo, ok := lt.Atom.(*ssa.BinOp)
+				if !ok {
+					continue
+				}
+				switch bo.Op {
+				case token.LSS, token.LEQ, token.GTR, token.GEQ, token.EQL:
+				default:
+					continue
+				}
+				x, op, k, ok := cmpInt(lt.Atom)
+				if !ok || x != v {
+					continue
+				}
+				var lb int64
+				okLit := true
+				switch {
+				case op == token.GEQ && lt.Val:
+					lb = k
+				case op == token.GTR && lt.Val:
+					lb = k + 1
+				case op == token.LSS && !lt.Val:
+					lb = k
+				case op == token.LEQ && !lt.Val:
+					lb = k + 1
+				case op == token.EQL && lt.Val:
+					lb = k
+				default:
+					okLit = false
+				}
+				if okLit && (!found || lb > bestDj) {
+					found, bestDj = true, lb
+				}
+			}
+			if !found {
+				all = false
+				break
+			}
+			if i == 0 || bestDj < minOver {
+				minOver = bestDj
+			}
+		}
+		if all && (!have || minOver > best) {
+			best, have = minOver, true
+		}
+	}
+	return best, have
+}
+
+// c14r21: the closure of printInfoImpl that pads the info line hands `fillLength+1` to strings.Repeat, which
+// panics on a negative count. Every call that asks for padding passes a length proven to be at least -1
+// (round-10 mutant C14c10 relaxed the guard of `printSeparator(fillLength-2, true)` from >= 2 to >= 0: with
+// --info=right --no-separator, a window exactly as wide as the info text crashed fzf while the input loads).
+func c14r21(c *Ctx, r *Report) {
+	l := c.L
+	r.rule("C14-R21", "C (non-negative repeat count)", "P1",
+		"for every local closure of Terminal.printInfoImpl that passes `param + d` to strings.Repeat, each call that can reach the Repeat (the pad argument is not the constant false) passes an argument whose proven lower bound plus d is >= 0",
+		"strings.Repeat panics with a negative count while the info line is drawn: fzf dies with the terminal in raw mode")
+	fn := l.Fn("fzf", "(*Terminal).printInfoImpl")
+	if fn == nil {
+		r.unest("anchors", token.NoPos, nil, "anchor Terminal.printInfoImpl", "cannot resolve")
+		return
+	}
+	pc := pathConds(fn)
+	n, closures := 0, 0
+	eachInstr(fn, func(in ssa.Instruction) {
+		mc, ok := in.(*ssa.MakeClosure)
+		if !ok {
+			return
+		}
+		cf := mc.Fn.(*ssa.Function)
+		// param index and delta handed to Repeat
+		pi, delta := -1, int64(0)
+		eachInstr(cf, func(in2 ssa.Instruction) {
+			call, ok := in2.(*ssa.Call)
+			if !ok || calleeName(call.Common()) != "strings.Repeat" {
+				return
+			}
+			cnt := call.Call.Args[1]
+			d := int64(0)
+			if bo, ok := cnt.(*ssa.BinOp); ok && bo.Op == token.ADD {
+				if k, isK := constIntVal(bo.Y); isK {
+					cnt, d = bo.X, k
+				}
+			}
+			for i, p := range cf.Params {
+				if ssa.Value(p) == cnt {
+					pi, delta = i, d
+				}
+			}
+		})
+		if pi < 0 {
+			return
+		}
+		closures++
+		eachInstr(fn, func(in2 ssa.Instruction) {
+			call, ok := in2.(*ssa.Call)
+			if !ok || call.Call.Value != ssa.Value(mc) || len(call.Call.Args) <= pi {
+				return
+			}
+			// a constant-false bool argument switches the padding off
+			for _, a := range call.Call.Args {
+				if bv, ok := constBool(a); ok && !bv {
+					return
+				}
+			}
+			n++
+			arg := call.Call.Args[pi]
+			lb, ok := lowerBoundAt(pc, call.Block(), arg, 0)
+			r.check(ok && lb+delta >= 0, fmt.Sprintf("%s:padding call #%d of %s", relName(fn), n, relName(cf)), call.Pos(), fn,
+				fmt.Sprintf("the repeat count is at least %d", lb+delta),
+				fmt.Sprintf("the argument %s is not proven to be >= %d on every path to this call: strings.Repeat receives a negative count", describe(arg), -delta))
+		})
+	})
+	r.floor("closures of printInfoImpl that pad with strings.Repeat", closures, 1)
+	r.floor("padding calls", n, 2)
+}
+
+// c17r28: an option given twice takes its last value: a parser that writes into an existing struct sets every
+// field it can set before it looks at the argument (round-10 mutant C17b10 dropped the two resets at the top
+// of parseLabelPosition: `--border-label-pos 5:bottom --border-label-pos center` kept the label at the bottom).
+func c17r28(c *Ctx, r *Report) {
+	l := c.L
+	r.rule("C17-R28", "A (must-pass-through: reset before the argument is read)", "P1",
+		"in parseLabelPosition, every field of labelOpts the function stores into anywhere is also stored into by an instruction that dominates every return",
+		"a label-position option given twice (or after $FZF_DEFAULT_OPTS) keeps parts of the earlier value: the last occurrence does not determine the result")
+	fn := l.Fn("fzf", "parseLabelPosition")
+	if fn == nil || len(fn.Params) == 0 {
+		r.unest("anchors", token.NoPos, nil, "anchor parseLabelPosition", "cannot resolve")
+		return
+	}
+	opts := fn.Params[0]
+	stores := map[*types.Var][]*ssa.Store{}
+	var rets []*ssa.Return
+	eachInstr(fn, func(in ssa.Instruction) {
+		switch x := in.(type) {
+		case *ssa.Store:
+			fa, ok := x.Addr.(*ssa.FieldAddr)
+			if !ok || fa.X != ssa.Value(opts) {
+				return
+			}
+			f, _ := fieldOf(fa)
+			stores[f] = append(stores[f], x)
+		case *ssa.Return:
+			rets = append(rets, x)
+		}
+	})
+	var fields []*types.Var
+	for f := range stores {
+		fields = append(fields, f)
+	}
+	sort.Slice(fields, func(i, j int) bool { return fields[i].Name() < fields[j].Name() })
+	for _, f := range fields {
+		good := false
+		for _, st := range stores[f] {
+			all := true
+			for _, ret := range rets {
+				if !dominates(st, ret) {
+					all = false
+				}
+			}
+			if all {
+				good = true
+			}
+		}
+		r.check(good, relName(fn)+":"+f.Name()+" is set on every path", stores[f][0].Pos(), fn,
+			"a store into labelOpts."+f.Name()+" dominates every return", "labelOpts."+f.Name()+" is assigned only for some arguments: otherwise the value of an earlier occurrence of the option survives")
+	}
+	r.floor("fields parseLabelPosition stores into", len(fields), 2)
+}
+
+// c17r29: validateOptions dereferences optional string options (*string) only under the nil test of the same
+// field (round-10 mutant C17c10 validated *opts.Pointer under `opts.Marker != nil`: `--marker X` without
+// --pointer crashed with a nil dereference instead of being accepted).
+func c17r29(c *Ctx, r *Report) {
+	l := c.L
+	r.rule("C17-R29", "C (nil guard names the field that is dereferenced)", "P1",
+		"in validateOptions and postProcessOptions, every dereference of a pointer-typed field of Options happens on paths that have tested that same field against nil (or stored a non-nil value into it)",
+		"an argument vector is neither accepted nor rejected with a message: fzf panics with a nil pointer dereference while validating the options")
+	optsT := l.Named("fzf", "Options")
+	if optsT == nil {
+		r.unest("anchors", token.NoPos, nil, "anchor Options", "cannot resolve")
+		return
+	}
+	n := 0
+	for _, name := range []string{"validateOptions", "postProcessOptions"} {
+		fn := l.Fn("fzf", name)
+		if fn == nil {
+			r.unest("anchors", token.NoPos, nil, "anchor "+name, "cannot resolve")
+			continue
+		}
+		_ = pathConds
+		eachInstr(fn, func(in ssa.Instruction) {
+			u, ok := in.(*ssa.UnOp)
+			if !ok || u.Op != token.MUL {
+				return
+			}
+			// u = *p where p = *(&opts.F), F of type *string / *T (basic pointee)
+			f, root := loadedField(u.X)
+			if f == nil || root == nil {
+				return
+			}
+			pt, ok := f.Type().Underlying().(*types.Pointer)
+			if !ok {
+				return
+			}
+			if _, isBasic := pt.Elem().Underlying().(*types.Basic); !isBasic {
+				return
+			}
+			if !isPtrToNamed(root.Type(), optsT) {
+				return
+			}
+			n++
+			// a path from the entry to the dereference that neither stores a non-nil value into the field nor
+			// takes the non-nil edge of a nil test of the field
+			isSet := func(in2 ssa.Instruction) bool {
+				st, ok := in2.(*ssa.Store)
+				if !ok {
+					return false
+				}
+				if g, _ := fieldOf(st.Addr); g != f {
+					return false
+				}
+				if k, ok := st.Val.(*ssa.Const); ok && k.Value == nil {
+					return false
+				}
+				return true
+			}
+			edgeOK := func(from, to *ssa.BasicBlock) bool {
+				iff, ok := from.Instrs[len(from.Instrs)-1].(*ssa.If)
+				if !ok {
+					return true
+				}
+				bo, ok := iff.Cond.(*ssa.BinOp)
+				if !ok || (bo.Op != token.NEQ && bo.Op != token.EQL) {
+					return true
+				}
+				if k, ok := bo.Y.(*ssa.Const); !ok || k.Value != nil {
+					return true
+				}
+				if g, _ := loadedField(bo.X); g != f {
+					return true
+				}
+				if bo.Op == token.NEQ {
+					return to != from.Succs[0]
+				}
+				return to != from.Succs[1]
+			}
+			start := fn.Blocks[0].Instrs[0]
+			bad := pathAvoiding(start, func(x ssa.Instruction) bool { return x == ssa.Instruction(u) }, isSet, edgeOK)
+			stored, holds, reach := bad == nil, false, true
+			r.check(stored || holds || !reach, fmt.Sprintf("%s:*opts.%s #%d", relName(fn), f.Name(), n), u.Pos(), fn,
+				"dereferenced under `opts."+f.Name()+" != nil`", "opts."+f.Name()+" is dereferenced on a path that has not tested opts."+f.Name()+" against nil (the guard names another field)")
+		})
+	}
+	r.floor("dereferences of optional Options fields in the validation functions", n, 4)
+}
+
+// c19r16: a Reader is created in the not-cancelled state, and NewReader stores each parameter into the field
+// of the same name (the literal is positional and has three bool slots; round-10 mutant C19c10 put delimNil
+// into the slot of `killed`: with --read0 the walker was born cancelled and listed nothing).
+func c19r16(c *Ctx, r *Report) {
+	l := c.L
+	r.rule("C19-R16", "E (constructor: killed=false, parameter -> field of the same name)", "P1",
+		"in NewReader, Reader.killed is initialised with the constant false (or not at all), and every parameter stored into a field of the new Reader goes to the field that has the parameter's name",
+		"the built-in walker starts out cancelled (or another flag is swapped) for some option combination: the candidate list is empty or cut short without any message")
+	fn := l.Fn("fzf", "NewReader")
+	fK := l.Field("fzf", "Reader", "killed")
+	if fn == nil || fK == nil {
+		r.unest("anchors", token.NoPos, nil, "anchors NewReader / Reader.killed", "cannot resolve")
+		return
+	}
+	n := 0
+	killedOK := true
+	eachInstr(fn, func(in ssa.Instruction) {
+		st, ok := in.(*ssa.Store)
+		if !ok {
+			return
+		}
+		f, _ := fieldOf(st.Addr)
+		if f == nil {
+			return
+		}
+		if f == fK {
+			if bv, ok := constBool(st.Val); !ok || bv {
+				killedOK = false
+				r.bad(relName(fn)+":killed starts false", st.Pos(), fn, "a new Reader is not cancelled", "Reader.killed is initialised with "+describe(st.Val)+", not with false")
+			}
+			return
+		}
+		if p, ok := st.Val.(*ssa.Parameter); ok {
+			n++
+			r.check(p.Name() == f.Name(), fmt.Sprintf("%s:parameter %s", relName(fn), p.Name()), st.Pos(), fn,
+				"stored into the field of the same name", "parameter "+p.Name()+" is stored into Reader."+f.Name())
+		}
+	})
+	if killedOK {
+		r.ok(relName(fn)+":killed starts false", fn.Pos(), fn, "Reader.killed is false in a new Reader")
+	}
+	r.floor("parameters stored by NewReader", n, 4)
+}
+
+// storesPwindow: the function (or a closure nested in it) stores a non-nil value into Terminal.pwindow.
+func storesNonNilField(fn *ssa.Function, f *types.Var) bool {
+	res := false
+	for _, g := range withClosures(fn) {
+		eachInstr(g, func(in ssa.Instruction) {
+			st, ok := in.(*ssa.Store)
+			if !ok {
+				return
+			}
+			if fld, _ := fieldOf(st.Addr); fld != f {
+				return
+			}
+			if k, ok := st.Val.(*ssa.Const); ok && k.Value == nil {
+				return
+			}
+			res = true
+		})
+	}
+	return res
+}
+
+// c20r16: resizeWindows throws the preview window away and makes a new one; the new window is empty, so the
+// record of what has been rendered (Terminal.previewed.version) is reset first, on every path (round-10 mutant
+// C20b10 reset it only when there had been no preview window before: after a resize the preview pane stayed blank
+// until the next preview result).
+func c20r16(c *Ctx, r *Report) {
+	l := c.L
+	r.rule("C20-R16", "A (must-pass-through: reset before the preview window is re-created)", "P1",
+		"in Terminal.resizeWindows, a store of 0 into Terminal.previewed.version dominates every creation of, and every call of a local closure that creates, the preview window (a non-nil store into Terminal.pwindow)",
+		"after a resize / layout change the new, empty preview window is considered up to date: the pane shows nothing although a preview result is available")
+	fn := l.Fn("fzf", "(*Terminal).resizeWindows")
+	fPw := l.Field("fzf", "Terminal", "pwindow")
+	fVer := l.Field("fzf", "previewed", "version")
+	if fn == nil || fPw == nil || fVer == nil {
+		r.unest("anchors", token.NoPos, nil, "anchors Terminal.resizeWindows / pwindow / previewed.version", "cannot resolve")
+		return
+	}
+	var resets []ssa.Instruction
+	eachInstr(fn, func(in ssa.Instruction) {
+		st, ok := in.(*ssa.Store)
+		if !ok {
+			return
+		}
+		if f, _ := fieldOf(st.Addr); f == fVer && isConstInt(st.Val, 0) {
+			resets = append(resets, st)
+		}
+	})
+	dominated := func(in ssa.Instruction) bool {
+		for _, rs := range resets {
+			if dominates(rs, in) {
+				return true
+			}
+		}
+		return false
+	}
+	n := 0
+	eachInstr(fn, func(in ssa.Instruction) {
+		switch x := in.(type) {
+		case *ssa.Store:
+			if f, _ := fieldOf(x.Addr); f == fPw {
+				if k, ok := x.Val.(*ssa.Const); ok && k.Value == nil {
+					return
+				}
+				n++
+				r.check(dominated(x), fmt.Sprintf("%s:creation #%d of the preview window", relName(fn), n), x.Pos(), fn, "after the reset of previewed.version", "the preview window is re-created on a path that has not reset previewed.version")
+			}
+		case *ssa.Call:
+			if x.Common().StaticCallee() != nil || x.Common().IsInvoke() {
+				return
+			}
+			creates := false
+			for v := range backwardSlice(x.Call.Value, nil, nil) {
+				if mc, ok := v.(*ssa.MakeClosure); ok && storesNonNilField(mc.Fn.(*ssa.Function), fPw) {
+					creates = true
+				}
+			}
+			if !creates {
+				return
+			}
+			n++
+			r.check(dominated(x), fmt.Sprintf("%s:call #%d of a closure that creates the preview window", relName(fn), n), x.Pos(), fn, "after the reset of previewed.version", "the closure that re-creates the preview window is called on a path that has not reset previewed.version (a reset inside the closure under a condition does not count)")
+		}
+	})
+	r.floor("creations of the preview window in resizeWindows", n, 1)
+}
+
+// caseIdents: the identifiers listed in the case clauses of a function body that satisfy pred.
+func caseIdents(body ast.Node, pred func(cc *ast.CaseClause) bool) map[string]token.Pos {
+	res := map[string]token.Pos{}
+	ast.Inspect(body, func(nd ast.Node) bool {
+		cc, ok := nd.(*ast.CaseClause)
+		if !ok || !pred(cc) {
+			return true
+		}
+		for _, e := range cc.List {
+			if id, ok := e.(*ast.Ident); ok {
+				res[id.Name] = id.Pos()
+			}
+		}
+		return true
+	})
+	return res
+}
+
+// c20r17: the previewer goroutine is started only when some binding may ever ask for a preview. An action
+// whose handler parses and runs an action list produced at run time (transform) may produce preview(...) as
+// well, so mayTriggerPreview has to answer true for it (round-10 mutant C20c10 dropped actTransform from the
+// list: `--bind 'x:transform:echo preview:cat {}'` opened an empty pane and the command never ran).
+func c20r17(c *Ctx, r *Report) {
+	l := c.L
+	r.rule("C20-R17", "E (mayTriggerPreview <-> the handlers of Terminal.Loop)", "P1",
+		"every action type whose case clause in Terminal.Loop calls parseSingleActionList (it runs actions computed at run time) is listed in the case clause of mayTriggerPreview that returns true",
+		"a preview requested through transform(...) is never rendered because no previewer goroutine was started")
+	loop := fzfFuncDecl(l, "fzf", "Terminal.Loop")
+	mtp := fzfFuncDecl(l, "fzf", "mayTriggerPreview")
+	fn := l.Fn("fzf", "mayTriggerPreview")
+	if loop == nil || mtp == nil {
+		r.unest("anchors", token.NoPos, nil, "syntax of Terminal.Loop / mayTriggerPreview", "cannot resolve")
+		return
+	}
+	dynamic := caseIdents(loop.Body, func(cc *ast.CaseClause) bool {
+		found := false
+		for _, st := range cc.Body {
+			ast.Inspect(st, func(nd ast.Node) bool {
+				if _, nested := nd.(*ast.CaseClause); nested {
+					return false
+				}
+				if call, ok := nd.(*ast.CallExpr); ok {
+					if id, ok := call.Fun.(*ast.Ident); ok && id.Name == "parseSingleActionList" {
+						found = true
+					}
+				}
+				return true
+			})
+		}
+		return found
+	})
+	listed := caseIdents(mtp.Body, func(cc *ast.CaseClause) bool {
+		for _, st := range cc.Body {
+			if ret, ok := st.(*ast.ReturnStmt); ok && len(ret.Results) == 1 {
+				if id, ok := ret.Results[0].(*ast.Ident); ok && id.Name == "true" {
+					return true
+				}
+			}
+		}
+		return false
+	})
+	var names []string
+	for n := range dynamic {
+		names = append(names, n)
+	}
+	sort.Strings(names)
+	for _, n := range names {
+		_, ok := listed[n]
+		r.check(ok, "fzf.mayTriggerPreview:"+n+" may trigger a preview", mtp.Pos(), fn, "listed in mayTriggerPreview", n+" runs an action list computed at run time (which may contain preview) but mayTriggerPreview does not answer true for it")
+	}
+	r.floor("action types that run a computed action list", len(names), 1)
+}
+
+// sliceBases: the storage a slice value is built on: follows phis, re-slicing and the first argument of append.
+func sliceBases(v ssa.Value, seen map[ssa.Value]bool, out map[ssa.Value]bool) {
+	if v == nil || seen[v] {
+		return
+	}
+	seen[v] = true
+	switch x := v.(type) {
+	case *ssa.Phi:
+		for _, e := range x.Edges {
+			sliceBases(e, seen, out)
+		}
+	case *ssa.Slice:
+		sliceBases(x.X, seen, out)
+	case *ssa.Call:
+		if bi, ok := x.Call.Value.(*ssa.Builtin); ok && bi.Name() == "append" {
+			sliceBases(x.Call.Args[0], seen, out)
+			return
+		}
+		out[v] = true
+	case *ssa.ChangeType:
+		sliceBases(x.X, seen, out)
+	default:
+		out[v] = true
+	}
+}
+
+// c08r24: matchChunk searches either the items of the chunk or a list cached for a shorter query (`space`).
+// The list it returns is new storage: `space` belongs to the cache and is read again by later queries
+// (round-10 mutant C08a10 built the result in space[:0]: narrowing a query rewrote the cached list of the
+// shorter query in place, and going back to the shorter query showed only the narrowed lines).
+func c08r24(c *Ctx, r *Report) {
+	l := c.L
+	r.rule("C08-R24", "B (the cached list is read-only)", "P1",
+		"in Pattern.matchChunk, the returned slice is built (through append / re-slicing / phis) on storage made in the call, never on the parameter `space` or another incoming slice",
+		"a cached result is overwritten while it is being narrowed: returning to the earlier query shows fewer lines than match it")
+	fn := l.Fn("fzf", "(*Pattern).matchChunk")
+	if fn == nil {
+		r.unest("anchors", token.NoPos, nil, "anchor Pattern.matchChunk", "cannot resolve")
+		return
+	}
+	n := 0
+	eachInstr(fn, func(in ssa.Instruction) {
+		ret, ok := in.(*ssa.Return)
+		if !ok || len(ret.Results) == 0 {
+			return
+		}
+		n++
+		bases := map[ssa.Value]bool{}
+		sliceBases(ret.Results[0], map[ssa.Value]bool{}, bases)
+		good := true
+		why := ""
+		for b := range bases {
+			switch x := b.(type) {
+			case *ssa.MakeSlice, *ssa.Alloc:
+			case *ssa.Const:
+				_ = x
+			default:
+				good = false
+				why = describe(b)
+			}
+		}
+		r.check(good, fmt.Sprintf("%s:result #%d is fresh storage", relName(fn), n), ret.Pos(), fn,
+			"built on a slice made in the call", "the result is built on "+why+": appending to it writes into storage owned by the caller / the cache")
+	})
+	r.floor("returns of matchChunk", n, 1)
+}
+
+// c08r25: a snapshot may be searched while the reader keeps appending, so ChunkList.Snapshot hands out copies
+// of the chunks that can still change (the last one; the first one under --tail). Each copy is made in the
+// call that returns it (round-10 mutant C08b10 kept the copy of the previous call and returned it again when
+// the chunk count and the item count were unchanged — also true after a reload that produced as many lines:
+// the old items were searched).
+func c08r25(c *Ctx, r *Report) {
+	l := c.L
+	r.rule("C08-R25", "B (snapshot copies are made per call)", "P1",
+		"in ChunkList.Snapshot, every *Chunk stored into a slice made in the call is the address of a Chunk allocated in the same call, and no such allocation is stored into a field of the ChunkList",
+		"a snapshot contains a chunk copied for an earlier snapshot: after a reload with the same number of lines the matcher searches the previous input")
+	fn := l.Fn("fzf", "(*ChunkList).Snapshot")
+	if fn == nil || len(fn.Params) == 0 {
+		r.unest("anchors", token.NoPos, nil, "anchor ChunkList.Snapshot", "cannot resolve")
+		return
+	}
+	n := 0
+	eachInstr(fn, func(in ssa.Instruction) {
+		st, ok := in.(*ssa.Store)
+		if !ok {
+			return
+		}
+		if ia, ok := st.Addr.(*ssa.IndexAddr); ok {
+			if _, isMake := ia.X.(*ssa.MakeSlice); !isMake {
+				return
+			}
+			n++
+			al, isAlloc := st.Val.(*ssa.Alloc)
+			r.check(isAlloc && al.Heap, fmt.Sprintf("%s:chunk stored into the snapshot #%d", relName(fn), n), st.Pos(), fn,
+				"a copy allocated in this call", "the snapshot receives "+describe(st.Val)+", which is not a copy made in this call")
+			return
+		}
+		if fa, ok := st.Addr.(*ssa.FieldAddr); ok && fa.X == ssa.Value(fn.Params[0]) {
+			if al, isAlloc := st.Val.(*ssa.Alloc); isAlloc && al.Heap {
+				r.bad(relName(fn)+":copy retained in the list", st.Pos(), fn, "copies belong to the snapshot only", "a chunk copy made for a snapshot is kept in the ChunkList and can be handed out again")
+			}
+		}
+	})
+	r.floor("chunk copies stored into the snapshot", n, 3)
+}
+
+// c08r26: the terminal shows the merger it is handed: UpdateList replaces Terminal.merger on every call
+// (round-10 mutant C08c10 kept the old list when query string, sortedness and match count were the same:
+// after change-nth / --tail trimming / exclude with an equal count the list of an older state stayed).
+func c08r26(c *Ctx, r *Report) {
+	l := c.L
+	r.rule("C08-R26", "A (the result that arrives is the result that is shown)", "P1",
+		"in Terminal.UpdateList, the parameter is stored into Terminal.merger by a store that is not control dependent on any condition",
+		"a result computed for a newer state of the input is dropped: the list on display belongs to an older state")
+	fn := l.Fn("fzf", "(*Terminal).UpdateList")
+	fM := l.Field("fzf", "Terminal", "merger")
+	if fn == nil || fM == nil || len(fn.Params) < 2 {
+		r.unest("anchors", token.NoPos, nil, "anchors Terminal.UpdateList / Terminal.merger", "cannot resolve")
+		return
+	}
+	cc := cdCache{}
+	n := 0
+	good := false
+	var at token.Pos = fn.Pos()
+	eachInstr(fn, func(in ssa.Instruction) {
+		st, ok := in.(*ssa.Store)
+		if !ok {
+			return
+		}
+		if f, _ := fieldOf(st.Addr); f != fM || st.Val != ssa.Value(fn.Params[1]) {
+			return
+		}
+		n++
+		at = st.Pos()
+		if len(cc.of(st)) == 0 {
+			good = true
+		}
+	})
+	r.check(good, relName(fn)+":the new merger is always applied", at, fn, "unconditional store of the parameter into Terminal.merger", "the merger handed to UpdateList is stored only under a condition")
+	r.floor("stores of the parameter into Terminal.merger", n, 1)
+}
+
+// c15r18: when the current item is taller than the list area it still counts as one visible item: the
+// closure of Terminal.constrain that counts the items that fit never returns with the count still at zero
+// (round-10 mutant C15a10 dropped `numItemsFound == 0 ||`: the count stayed 0, the offset moved past the
+// cursor and no row showed the current item).
+func c15r18(c *Ctx, r *Report) {
+	l := c.L
+	r.rule("C15-R18", "A (must-pass-through: at least one item fits)", "P1",
+		"in the closure of Terminal.constrain that counts the items fitting on the screen, every path from the entry to a return passes an increment of the counter, except paths that have tested the counter to be non-zero",
+		"a multi-line item taller than the list leaves the count of visible items at 0: the scroll offset passes the cursor and the current item is not on the screen")
+	fn := l.Fn("fzf", "(*Terminal).constrain")
+	if fn == nil {
+		r.unest("anchors", token.NoPos, nil, "anchor Terminal.constrain", "cannot resolve")
+		return
+	}
+	n := 0
+	for _, cf := range withClosures(fn) {
+		if cf == fn {
+			continue
+		}
+		// the counter: a captured int cell that the closure increments and whose final value the parent uses
+		incs := map[ssa.Value][]ssa.Instruction{}
+		eachInstr(cf, func(in ssa.Instruction) {
+			st, ok := in.(*ssa.Store)
+			if !ok {
+				return
+			}
+			bo, ok := st.Val.(*ssa.BinOp)
+			if !ok || bo.Op != token.ADD || !isConstInt(bo.Y, 1) {
+				return
+			}
+			if u, ok := bo.X.(*ssa.UnOp); ok && u.Op == token.MUL && u.X == st.Addr {
+				if _, isFree := st.Addr.(*ssa.FreeVar); isFree {
+					incs[st.Addr] = append(incs[st.Addr], st)
+				}
+			}
+		})
+		for cell, list := range incs {
+			if len(list) < 2 {
+				continue // linesSum += lines is not a +1; a single increment is not the two-armed counter
+			}
+			isInc := func(in ssa.Instruction) bool {
+				for _, x := range list {
+					if x == in {
+						return true
+					}
+				}
+				return false
+			}
+			// edges on which the counter is known to be non-zero are not followed
+			edgeOK := func(from, to *ssa.BasicBlock) bool {
+				iff, ok := from.Instrs[len(from.Instrs)-1].(*ssa.If)
+				if !ok {
+					return true
+				}
+				bo, ok := iff.Cond.(*ssa.BinOp)
+				if !ok || !isConstInt(bo.Y, 0) {
+					return true
+				}
+				u, ok := bo.X.(*ssa.UnOp)
+				if !ok || u.Op != token.MUL || u.X != cell {
+					return true
+				}
+				switch bo.Op {
+				case token.EQL:
+					return to != from.Succs[1]
+				case token.NEQ, token.GTR:
+					return to != from.Succs[0]
+				}
+				return true
+			}
+			if len(cf.Blocks) == 0 {
+				continue
+			}
+			n++
+			start := cf.Blocks[0].Instrs[0]
+			path := pathAvoiding(start, isReturn, isInc, edgeOK)
+			if isInc(start) {
+				path = nil
+			}
+			pos := cf.Pos()
+			if path != nil {
+				pos = path.Pos()
+			}
+			r.check(path == nil, fmt.Sprintf("%s:the first item always counts", relName(cf)), pos, cf,
+				"every return with the counter at zero is preceded by an increment", "a path returns without counting the item although the counter may still be zero")
+		}
+	}
+	r.floor("fit-counting closures of Terminal.constrain", n, 1)
+}
+
+// linearOf decomposes an integer value into a sum of terms with constant offsets: v = sum(terms) + k.
+func linearOf(v ssa.Value, terms map[ssa.Value]int, sign int, depth int) int64 {
+	if k, ok := constIntVal(v); ok {
+		return int64(sign) * k
+	}
+	if bo, ok := v.(*ssa.BinOp); ok && depth < 6 {
+		switch bo.Op {
+		case token.ADD:
+			return linearOf(bo.X, terms, sign, depth+1) + linearOf(bo.Y, terms, sign, depth+1)
+		case token.SUB:
+			return linearOf(bo.X, terms, sign, depth+1) + linearOf(bo.Y, terms, -sign, depth+1)
+		}
+	}
+	terms[v] += sign
+	return 0
+}
+
+// c15r19: a loop that looks for the next separator byte with IndexByte(s[idx:], c) and continues behind it
+// advances by exactly found+1 per hit: less never ends, more skips a byte that may be a separator itself
+// (round-10 mutant C15b10 wrote `idx += found + 1` in Chars.NumLines on top of the loop's own idx++: an empty
+// line inside a multi-line item was not counted, the item was drawn taller than it was accounted for and the
+// rows below it were painted over).
+func c15r19(c *Ctx, r *Report) {
+	l := c.L
+	r.rule("C15-R19", "C (scan step = found + 1)", "P1",
+		"in every loop of package util whose index i is advanced by the result of bytes.IndexByte / strings.IndexByte applied to s[i:], the value of i on the back edge is i + found + 1",
+		"the number of lines of an item (Chars.NumLines) disagrees with the lines that are drawn (Chars.Lines): rows overlap or stay blank")
+	n := 0
+	for _, fn := range l.funcs {
+		if fn.Pkg == nil || fn.Pkg.Pkg.Path() != pkgAlias["util"] {
+			continue
+		}
+		eachInstr(fn, func(in ssa.Instruction) {
+			phi, ok := in.(*ssa.Phi)
+			if !ok {
+				return
+			}
+			if bt, ok := phi.Type().Underlying().(*types.Basic); !ok || bt.Info()&types.IsInteger == 0 {
+				return
+			}
+			for ei, e := range phi.Edges {
+				pred := phi.Block().Preds[ei]
+				if !phi.Block().Dominates(pred) {
+					continue // not a back edge
+				}
+				terms := map[ssa.Value]int{}
+				k := linearOf(e, terms, 1, 0)
+				if terms[phi] != 1 {
+					continue
+				}
+				var found ssa.Value
+				other := false
+				for t, coef := range terms {
+					if t == ssa.Value(phi) || coef == 0 {
+						continue
+					}
+					call, ok := t.(*ssa.Call)
+					nm := ""
+					if ok {
+						nm = calleeName(call.Common())
+					}
+					if ok && coef == 1 && (nm == "bytes.IndexByte" || nm == "strings.IndexByte") {
+						if sl, ok := call.Call.Args[0].(*ssa.Slice); ok && sl.Low == ssa.Value(phi) {
+							found = t
+							continue
+						}
+					}
+					other = true
+				}
+				if found == nil || other {
+					continue
+				}
+				n++
+				r.check(k == 1, fmt.Sprintf("%s:scan step of %s", relName(fn), phi.Comment), e.Pos(), fn,
+					"next index = index + found + 1", fmt.Sprintf("the loop continues at index + found + %d: %s", k, map[bool]string{true: "the byte after a separator is skipped", false: "the separator is found again for ever"}[k > 1]))
+			}
+		})
+	}
+	r.floor("IndexByte scan loops in package util", n, 1)
+}
+
+// c15r20: printList paints the rows offset .. offset+height-1 of the result. Terminal.constrain is what brings
+// offset (and cy) into the range of the current result, so printList reads them only after it has called it
+// (round-10 mutant C15c10 computed `count := Length() - t.offset` above the call: after scrolling down, a query
+// with fewer matches than the old offset left the list area blank while the info line said 19 matches).
+func c15r20(c *Ctx, r *Report) {
+	l := c.L
+	r.rule("C15-R20", "A (constrain before the scroll position is read)", "P1",
+		"in Terminal.printList, every read of Terminal.offset and Terminal.cy is dominated by the call of Terminal.constrain",
+		"the list is painted from a scroll offset that belongs to the previous result: rows stay blank although there are matches")
+	fn := l.Fn("fzf", "(*Terminal).printList")
+	con := l.Fn("fzf", "(*Terminal).constrain")
+	fOff := l.Field("fzf", "Terminal", "offset")
+	fCy := l.Field("fzf", "Terminal", "cy")
+	if fn == nil || con == nil || fOff == nil || fCy == nil {
+		r.unest("anchors", token.NoPos, nil, "anchors Terminal.printList / constrain / offset / cy", "cannot resolve")
+		return
+	}
+	var calls []ssa.Instruction
+	eachInstr(fn, func(in ssa.Instruction) {
+		if staticCallee(in) == con {
+			calls = append(calls, in)
+		}
+	})
+	if len(calls) == 0 {
+		r.bad(relName(fn)+":constrain is called", fn.Pos(), fn, "printList calls constrain", "printList does not call Terminal.constrain")
+		return
+	}
+	n := 0
+	eachInstr(fn, func(in ssa.Instruction) {
+		u, ok := in.(*ssa.UnOp)
+		if !ok || u.Op != token.MUL {
+			return
+		}
+		f, _ := fieldOf(u.X)
+		if f != fOff && f != fCy {
+			return
+		}
+		n++
+		dom := false
+		for _, cl := range calls {
+			if dominates(cl, u) {
+				dom = true
+			}
+		}
+		r.check(dom, fmt.Sprintf("%s:read #%d of Terminal.%s", relName(fn), n, f.Name()), u.Pos(), fn, "after constrain()", "Terminal."+f.Name()+" is read before constrain() has adjusted it to the current result")
+	})
+	r.floor("reads of the scroll position in printList", n, 1)
+}
+
 func round10(c *Ctx, r *Report, prop string) {
 	switch prop {
 	case "C01":
@@ -856,6 +1715,24 @@ func round10(c *Ctx, r *Report, prop string) {
 		c11r22(c, r)
 	case "C07":
 		c04r14(c, r) // Merger.Get: the position asked for is the position returned
+	case "C08":
+		c08r24(c, r)
+		c08r25(c, r)
+		c08r26(c, r)
+	case "C14":
+		c14r21(c, r)
+	case "C15":
+		c15r18(c, r)
+		c15r19(c, r)
+		c15r20(c, r)
+	case "C17":
+		c17r28(c, r)
+		c17r29(c, r)
+	case "C19":
+		c19r16(c, r)
+	case "C20":
+		c20r16(c, r)
+		c20r17(c, r)
 	case "C13":
 		c06r8(c, r) // the count of items is the same whichever goroutine computes it
 	}
